@@ -629,7 +629,13 @@ def _step(T, tok, op: list, res: core.CaseResult, mini: dict) -> bool:
     name = T.__name__
     kind, arg = op
     ind = has_indent(T)
-    pre_value, pre_indent = tok.value, (tok.indent if ind else None)
+    # the state before the step is read from a SHADOW token built from the same raw text, never from `tok` itself: a token
+    # that parses its text lazily must behave the same whether or not somebody looked at it before the assignment
+    try:
+        shadow = T.from_raw_text(tok.raw_text)
+        pre_value, pre_indent = shadow.value, (shadow.indent if ind else None)
+    except Exception:  # noqa: a raw text outside the language was forced in earlier
+        pre_value, pre_indent = tok.value, (tok.indent if ind else None)
     how = f'{mini["init"]!r} then {mini["ops"]!r}: after {kind} = {arg!r}'
     res.transitions += 1
     try:
@@ -733,7 +739,10 @@ def _run_bfs(case: dict, res: core.CaseResult) -> None:
                     getattr(type(tok), {'value': 'value', 'raw': 'raw_text', 'indent': 'indent'}[o[0]]).fset(tok, dec(T, o[1]) if o[0] == 'value' else o[1])
                 new = hist + [op]
                 mini = {'kind': 'hist', 'cls': name, 'init': init, 'ops': new}
-                pre = _observe(T, tok)
+                try:           # observed on a shadow token: `tok` itself must not be looked at before the assignment
+                    pre = _observe(T, T.from_raw_text(tok.raw_text))
+                except Exception:  # noqa
+                    pre = None
                 ok = _step(T, tok, op, res, mini)
                 if not ok:
                     res.outcomes[f'{name}:assignment-stopped'] += 1
